@@ -16,7 +16,7 @@
 -/
 import RattrModel.Swaps
 import RattrModel.Spec.PyBind
-import RattrModel.Generated
+import RattrModel.Generated.C04
 
 namespace Rattr.C04
 open Rattr Rattr.Swaps
@@ -26,10 +26,10 @@ variable {α : Type} [DecidableEq α]
 /-! ### Tie A: the tables the model hard-codes are what the source says now -/
 
 theorem tieA_all_order :
-    Generated.ifaceAllOrder = ["posonly", "args", "vararg", "kwonly", "kwarg"] := by decide
+    Generated.C04.ifaceAllOrder = ["posonly", "args", "vararg", "kwonly", "kwarg"] := by decide
 
 theorem tieA_standins :
-    Generated.varargStandIn = "@Tuple" ∧ Generated.kwargStandIn = "@Dict" := by decide
+    Generated.C04.varargStandIn = "@Tuple" ∧ Generated.C04.kwargStandIn = "@Dict" := by decide
 
 /-! ### The full statement (kept visible; false on the pinned tree) -/
 
